@@ -21,9 +21,30 @@ public:
     : token{ std::move(token) } {}
   explicit Node(TokenID id, StrRange pos, TokenData val = {}) noexcept 
     : Node(Token(id, pos, std::move(val))) {}
+
+  Node(const Node&) = delete;
+  Node& operator=(const Node&) = delete;
+
+  // Note: descendants are released iteratively, nesting of the input should not be limited by the call stack
+  ~Node() {
+    auto pending = std::move(children);
+    while (!std::empty(pending)) {
+      auto node = std::move(pending.back());
+      pending.pop_back();
+      if (node != nullptr && node.use_count() == 1) {
+        for (auto& child : node->children) {
+          pending.emplace_back(std::move(child));
+        }
+        node->children.clear();
+      }
+    }
+  }
 };
 
 struct ParserState {
+  //! Maximum nesting of the syntax tree: consumers of the tree are recursive
+  static constexpr int32_t MAX_TREE_DEPTH = 1000;
+
   meta::UniqueCPPtr<SyntaxTree> parsedTree{ nullptr };
   int32_t currentPosition{ 0 };
   int32_t countCriticalErrors{ 0 };
